@@ -323,7 +323,18 @@ pub fn cases(thorough: bool) -> Vec<Case> {
 pub fn run(tier: &str) -> i32 {
     let mut rep = Report::new("C11", tier);
     let thorough = rep.thorough();
-    let cs = cases(thorough);
+    let mut cs = cases(thorough);
+    // declarations-only modules (no entry point): the numbering contract is about the declarations (every 5th case)
+    {
+        let n0 = cs.len();
+        for i in 0..n0 {
+            if !cs[i].used && (thorough || i % 5 == 0) {
+                if let Some(src) = without_entry_points(&cs[i].src) {
+                    cs.push(Case { key: format!("{}|no-entry-points", cs[i].key), slots: cs[i].slots.clone(), used: false, src });
+                }
+            }
+        }
+    }
     let results = par_map(&cs, |c| {
         let mut r = Report::new("C11", tier);
         check_case(c, &mut r);
